@@ -13,9 +13,10 @@ import (
 
 // modSet is what a piece of code may modify, computed syntactically.
 type modSet struct {
-	vars map[*types.Var]bool
-	keys map[string]Sort // heap key -> array sort ("" if unknown)
-	all  bool
+	vars   map[*types.Var]bool
+	keys   map[string]Sort // heap key -> array sort ("" if unknown)
+	all    bool
+	points map[string]bool // program points ("after call f#1", ...) that lie inside the scanned code
 }
 
 func newModSet() *modSet { return &modSet{vars: map[*types.Var]bool{}, keys: map[string]Sort{}} }
@@ -134,8 +135,26 @@ func (c *Ctx) collectMods(info *types.Info, n ast.Node, ms *modSet, depth int) {
 			}
 			return false
 		case *ast.AssignStmt:
-			for _, l := range x.Lhs {
+			for i, l := range x.Lhs {
 				target(l)
+				// element writes and appends through a re-sliced variable reach its partners (see writeThrough)
+				var through ast.Expr
+				if ie, ok := unparen(l).(*ast.IndexExpr); ok {
+					through = ie.X
+				} else if i < len(x.Rhs) {
+					if call, ok := unparen(x.Rhs[i]).(*ast.CallExpr); ok {
+						if fid, ok := unparen(call.Fun).(*ast.Ident); ok && fid.Name == "append" && len(call.Args) > 0 {
+							through = call.Args[0]
+						}
+					}
+				}
+				if id, ok := through.(*ast.Ident); ok && info == c.info && c.prefix == "" {
+					for _, p := range c.aliasPartners(info.ObjectOf(id)) {
+						if pv, ok := p.(*types.Var); ok {
+							ms.vars[pv] = true
+						}
+					}
+				}
 			}
 		case *ast.IncDecStmt:
 			target(x.X)
@@ -303,6 +322,10 @@ func (c *Ctx) havocMods(st *State, ms *modSet) {
 	// ghosts bound or counted at program points may change in the body: unknown at the loop head (invariants say more)
 	if c.prefix == "" && c.unit.Contract != nil {
 		for _, pg := range c.unit.Contract.PointGhosts {
+			isCallPoint := strings.HasPrefix(pg.Point, "before call ") || strings.HasPrefix(pg.Point, "after call ")
+			if ms.points != nil && isCallPoint && !ms.points[pg.Point] {
+				continue // its point is not inside this loop
+			}
 			if v, ok := st.ghost[pg.Name]; ok {
 				st.ghost[pg.Name] = Val{T: c.fresh("pg_"+pg.Name, v.S), S: v.S}
 			}
@@ -390,9 +413,22 @@ func (c *Ctx) checkInvs(st *State, id string, ls *LoopSpec, pos token.Pos, extra
 
 func (c *Ctx) loopMods(body ...ast.Node) *modSet {
 	ms := newModSet()
+	ms.points = map[string]bool{}
 	for _, b := range body {
 		if b != nil && !isNilNode(b) {
 			c.collectMods(c.info, b, ms, 0)
+			if c.prefix == "" {
+				ast.Inspect(b, func(n ast.Node) bool {
+					if call, ok := n.(*ast.CallExpr); ok {
+						if k, ok := c.callOrd[call]; ok {
+							nm := fmt.Sprintf("call %s#%d", types.ExprString(call.Fun), k)
+							ms.points["before "+nm] = true
+							ms.points["after "+nm] = true
+						}
+					}
+					return true
+				})
+			}
 		}
 	}
 	return ms
